@@ -2,3 +2,10 @@
 # its correspondence runs clean on the unchanged tree and its check exits 0.
 for _p in ["C%02d" % i for i in range(1, 21)]:
     unclaimed(_p, "not claimed yet in this revision: model, correspondence and oracle run, theorem module still being written (no technique switch; see DESIGN.md)")
+
+claim("C12", "Lean 4 theorems (tiled-write lemma, per-encoder equation) + differential correspondence",
+      "Proved for the model, for every encodable request/response/exception/RTU/TCP ADU and every buffer (any length, any contents): "
+      "encode = error if the buffer is shorter than the encoded size, else exactly (size, image ++ old tail); no panic; bytes beyond the returned length untouched "
+      "(Props/C12.lean: EncSpec.property, request, response, exceptionResponse, responsePdu, rtuRequest, rtuResponse, tcpRequest, tcpResponse). "
+      "Model tied to the crate by running every encoder on generated values x buffer lengths 0..size+3 x two fills and comparing whole buffers.",
+      "Encodable = implemented kind, byte count <= 255, container holds the promised bytes; RTU-only kinds (todo!() in the crate) are outside the theorem.")
